@@ -69,195 +69,12 @@ let show_ev = function
   | EEndP -> "E:P" | EEndX -> "E:X" | EEndR o -> show_out o
   | EO -> "o" | ED -> "d" | EDc c -> Printf.sprintf "D%d" (int_of_nat c) | EV v -> Printf.sprintf "V%d" (int_of_nat v)
   | EK k -> Printf.sprintf "K%d" (int_of_nat k) | EN n -> Printf.sprintf "N%d" (int_of_nat n) | EBool b -> if b then "T" else "F"
-(* ---- nests (std build): an outer join / merge over two inner joins / merges over the leaves.  There is no Coq model of a nest; this is the
-   composition the universality argument describes, carried out with the extracted model on both levels: the inner combinator is run on its own
-   history, each of its polls becomes one scripted step of the outer model's child (answer = what it returned, fires = one self-wake per wake-up
-   of the waker it was handed), each wake-up of that waker between polls becomes a fire operation of the outer model.  Worlds are recomputed from
-   (scripts, history), the model being a pure function of them. ---- *)
-let rec drop_n n l = if n <= 0 then l else match l with [] -> [] | _ :: r -> drop_n (n - 1) r
-let nest_trace (selective: bool) (kind: string) (scripts: step list list) (ops: op list) : string list =
-  let nleaf = List.length scripts in
-  let half = nleaf / 2 in
-  let base c = if c = 0 then 0 else half in
-  let inner_of l = if l < half then 0 else 1 in
-  (* handles named inside a leaf's script are global (leaf, k): within the same inner combinator they become local; a wake-up of a leaf of the
-     OTHER inner combinator is taken out of the script given to the inner model and applied to that combinator when it happens (`cross` below) *)
-  let localise c (stp: step) = { stp with fires = List.filter_map (fun h -> match h with
-      | HSelf -> Some HSelf
-      | HOf (l, k) -> let l = int_of_nat l in if inner_of l = c then Some (HOf (nat_of_int (l - base c), k)) else None) stp.fires } in
-  let leaves c = List.map (List.map (localise c)) (if c = 0 then List.filteri (fun i _ -> i < half) scripts else List.filteri (fun i _ -> i >= half) scripts) in
-  let streams = (kind = "nest_mm" || kind = "nest_gm" || kind = "nest_cm" || kind = "nest_zm") in
-  (* inner level: Vec join, Vec merge, or (nest_jr) Vec race, which hands its caller's waker straight to its children *)
-  let run_level scs hist =
-    if kind = "nest_jr" then tr (race_world scs hist)
-    else if streams then tr (merge_world selective scs hist) else tr (join_world selective false false scs hist) in
-  (* does the outer level hand its caller's waker straight to the inner combinators?  (always in the alloc build; race and chain in every build) *)
-  let outer_passes = (not selective) || kind = "nest_rj" || kind = "nest_cm" in
-  (* the outer level of nest_jt is the two-argument trait method a.join(b): the tuple algorithm; of nest_gj / nest_gm a group into which the two
-     inner combinators were inserted at construction (a member's script is handed over at its insert) *)
-  let run_outer scs hist =
-    if kind = "nest_jt" then tr (join_world selective false true scs hist)
-    else if kind = "nest_jr" then tr (join_world selective false false scs hist)
-    else if kind = "nest_rj" then tr (race_world scs hist)
-    else if kind = "nest_cm" then tr (chain_world scs hist)
-    else if kind = "nest_zm" then tr (zip_world selective scs hist)
-    else if kind = "nest_gj" || kind = "nest_gm" then
-      tr (group_world selective streams O (List.map (fun sc -> OMut (O, O, sc)) scs @ hist))
-    else run_level scs hist in
-  let otr = ref (List.length (run_outer [[]; []] [])) in       (* a group: the events of the two inserts *)
-  let ihist = [| []; [] |] and itr = [| 0; 0 |] and ipolled = [| false; false |] in
-  let oscs = [| []; [] |] and ohist = ref [] in
-  let out = ref [] in
-  let emit s = out := s :: !out in
-  let to_ans o = (match o with OVals _ | OOk _ -> AReady (ROk O) | OErr e -> AReady (RErr e) | OSome (_, v :: _) -> AItem v | OSome (_, []) -> AItem O | ONone -> AEnd | OErrs _ -> AReady (RErr O)) in
-  (* the outer model's reaction to one wake-up of the waker child c holds: a fire operation between polls *)
-  let outer_fire c =
-    if not outer_passes then begin
-    ohist := !ohist @ [OFire (nat_of_int c, O)];
-    let t = run_outer [oscs.(0); oscs.(1)] !ohist in
-    let d = drop_n !otr t in otr := List.length t;
-    List.iter (fun e -> match e with EW p -> emit (Printf.sprintf "W%d" (int_of_nat p)) | _ -> ()) d end in
-  let results = ref [] in
-  let first_leaf = [| -1; -1 |] and winner = ref 0 in
-  let npolls = Array.make (max nleaf 1) 0 in       (* how often each leaf has been polled: which step of its script is next *)
-  let dropped = ref false in
-  let ended = ref false in       (* a group is never finished for the model (it can be refilled); the harness stops polling a nest that returned None *)
-  (* non-selective build: an inner combinator numbers the caller's wakers it has seen itself; pmap.(c) translates its numbers into the outer ones *)
-  let pmap = [| Hashtbl.create 8; Hashtbl.create 8 |] and last_opid = [| -1; -1 |] in
-  let tr_pid c p = (match Hashtbl.find_opt pmap.(c) (int_of_nat p) with Some q -> q | None -> int_of_nat p) in
-  List.iter (fun o -> match o with
-    | (OPollFresh | OPollSame) when !ended -> ()
-    | OPollFresh | OPollSame ->
-        (* which parent waker does this poll of the outer combinator carry?  (none: the poll is ignored, the combinator has finished or was dropped) *)
-        let opid = (match drop_n !otr (run_outer [oscs.(0); oscs.(1)] (!ohist @ [o])) with EB p :: _ -> int_of_nat p | _ -> -1) in
-        if opid >= 0 then begin
-          ohist := !ohist @ [o];
-          (* The children this poll of the outer combinator polls are determined one after the other: the outer model is run with the steps known so
-             far; the first child it polls beyond those is polled next in reality too (everything before that point is exact), so the inner
-             combinator is run NOW - after whatever its siblings did to it earlier in this very poll - and its step becomes known. *)
-          let known = ref [] in                    (* (child, step), in visiting order *)
-          let actions = [| []; [] |] in             (* per child, in time order: `Leaf token | `Wake (the next fire group of the outer model) | `Res *)
-          let final = ref [] in
-          let continue = ref true in
-          while !continue do
-            let scs = List.mapi (fun c s -> s @ (match List.assoc_opt c !known with Some st -> [st] | None -> [])) [oscs.(0); oscs.(1)] in
-            let d = drop_n !otr (run_outer scs !ohist) in
-            (match List.find_map (fun e -> match e with EC (c, _) when not (List.mem_assoc (int_of_nat c) !known) -> Some (int_of_nat c) | _ -> None) d with
-             | None -> continue := false; final := d
-             | Some c ->
-                 (* selective: the inner combinator is always handed the same sub-waker of the outer one; otherwise it is handed the caller's waker,
-                    which is new to it unless it is the one of its own last poll *)
-                 let pop = if not outer_passes then (if ipolled.(c) then OPollSame else OPollFresh)
-                           else (if ipolled.(c) && last_opid.(c) = opid then OPollSame else OPollFresh) in
-                 ihist.(c) <- ihist.(c) @ [pop];
-                 let t = run_level (leaves c) ihist.(c) in
-                 let idelta = drop_n itr.(c) t in
-                 itr.(c) <- List.length t; ipolled.(c) <- true; last_opid.(c) <- opid;
-                 (match idelta with EB pin :: _ -> Hashtbl.replace pmap.(c) (int_of_nat pin) opid | _ -> ());
-                 let acts = ref [] and fires = ref [] in
-                 let act a = acts := a :: !acts in
-                 (* a leaf wakes, from inside its poll, a leaf of the OTHER inner combinator: that combinator reacts at once *)
-                 let cross l2 k2 =
-                   let b = inner_of l2 in
-                   ihist.(b) <- ihist.(b) @ [OFire (nat_of_int (l2 - base b), k2)];
-                   let tb = run_level (leaves b) ihist.(b) in
-                   let db = drop_n itr.(b) tb in itr.(b) <- List.length tb;
-                   List.iter (fun e -> match e with
-                     | EF (j, k) -> act (`Leaf (Printf.sprintf "f%d.%d" (base b + int_of_nat j) (int_of_nat k)))
-                     | EW p when outer_passes -> act (`Leaf (Printf.sprintf "W%d" (tr_pid b p)))
-                     | EW _ -> act `Wake; fires := HOf (nat_of_int b, O) :: !fires
-                     | _ -> ()) db in
-                 let pending = ref [] and curj = ref (-1) in
-                 let flush_until (m: href -> bool) =          (* wake-ups scripted before the one the model has just reported (or all of them) *)
-                   let rec go () = (match !pending with
-                     | [] -> ()
-                     | h :: r -> pending := r;
-                         if m h then () else begin
-                           (match h with HOf (l2, k2) when inner_of (int_of_nat l2) <> c -> cross (int_of_nat l2) k2 | _ -> ());
-                           go () end) in go () in
-                 List.iter (fun e -> match e with
-                   | EC (j, w) ->
-                       let l = base c + int_of_nat j in
-                       curj := int_of_nat j;
-                       pending := (match List.nth_opt (List.nth scripts l) npolls.(l) with Some st -> st.fires | None -> []);
-                       npolls.(l) <- npolls.(l) + 1;
-                       (* what a leaf is handed: the inner combinator's sub-waker for it; or, below an inner race, what the race was handed - the
-                          caller's waker, or the outer combinator's sub-waker for the race, labelled by the first leaf that was ever handed it *)
-                       act (`Leaf (match w with
-                         | WSub _ -> Printf.sprintf "c%d:S%d" l l
-                         | WPar p when outer_passes -> Printf.sprintf "c%d:P%d" l (tr_pid c p)
-                         | WPar _ -> (if first_leaf.(c) < 0 then first_leaf.(c) <- l); Printf.sprintf "c%d:S%d" l first_leaf.(c)))
-                   | EF (j, k) ->
-                       let l2 = base c + int_of_nat j in
-                       flush_until (fun h -> match h with
-                         | HSelf -> int_of_nat j = !curj && int_of_nat k = npolls.(l2) - 1
-                         | HOf (lg, kg) -> int_of_nat lg = l2 && kg = k);
-                       act (`Leaf (Printf.sprintf "f%d.%d" l2 (int_of_nat k)))
-                   | EW p when outer_passes -> act (`Leaf (Printf.sprintf "W%d" (tr_pid c p)))
-                   | EW _ -> act `Wake; fires := HSelf :: !fires
-                   | EAns a -> flush_until (fun _ -> false); act (`Leaf (show_ans a))
-                   | EDc j -> act (`Leaf (Printf.sprintf "D%d" (base c + int_of_nat j)))
-                   | EEndR r -> results := (c, r) :: !results
-                   | _ -> ()) idelta;
-                 let a = (match List.rev idelta with EEndR r :: _ -> to_ans r | EEndX :: _ -> APanic | _ -> APend) in
-                 let stp = { fires = (if outer_passes then [] else List.rev !fires); answer = a } in
-                 (match a with AReady _ -> winner := c | _ -> ());
-                 actions.(c) <- List.rev !acts;
-                 known := !known @ [(c, stp)])
-          done;
-          List.iter (fun (c, stp) -> oscs.(c) <- oscs.(c) @ [stp]) !known;
-          otr := !otr + List.length !final;
-          (* print: a poll of child c is replaced by what happened inside the inner combinator *)
-          let rec walk evs =
-            (match evs with
-             | [] -> ()
-             | EB p :: r -> emit (Printf.sprintf "B%d" (int_of_nat p)); walk r
-             | EC (c, _) :: r ->
-                 let c = int_of_nat c in
-                 (* the outer model's events for the wake-ups of this step: groups EF c h [EW p] *)
-                 let rec groups evs acc = (match evs with
-                   | EF _ :: EW p :: r2 -> groups r2 (Some p :: acc)
-                   | EF _ :: r2 -> groups r2 (None :: acc)
-                   | r2 -> (List.rev acc, r2)) in
-                 let (gs, r') = groups r [] in
-                 let gs = ref gs in
-                 List.iter (fun a -> match a with
-                   | `Leaf s -> emit s
-                   | `Wake -> (match !gs with Some p :: g -> gs := g; emit (Printf.sprintf "W%d" (int_of_nat p)) | None :: g -> gs := g | [] -> ())) actions.(c);
-                 walk r'
-             | EAns _ :: r | EDc _ :: r -> walk r          (* the outer model's view of the inner combinator as a child *)
-             | ED :: r -> emit "d"; dropped := true; walk r
-             | EEndP :: r -> emit "E:P"; walk r
-             | EEndX :: r -> emit "E:X"; walk r
-             | EEndR ONone :: r -> emit "E:N"; ended := true; walk r
-             | EEndR (OSome (Some k, _)) :: r when kind = "nest_gj" ->      (* the member in slot k (= inner combinator k) has resolved: its output vector *)
-                 let vs = (match List.assoc_opt (int_of_nat k) !results with Some (OVals vs) -> vs | _ -> []) in
-                 emit ("E:S[" ^ ints vs ^ "]"); walk r
-             | EEndR (OSome (_, vs)) :: r -> emit ("E:S[" ^ ints vs ^ "]"); walk r
-             | EEndR _ :: r ->
-                 let vals c = (match List.assoc_opt c !results with Some (OVals vs) -> vs | _ -> []) in
-                 emit ("E:R[" ^ ints (if kind = "nest_rj" then vals !winner else vals 0 @ vals 1) ^ "]"); walk r
-             | _ :: r -> walk r) in
-          walk !final
-        end
-    | OFire (l, k) ->
-        let l = int_of_nat l in
-        let c = if l < half then 0 else 1 in
-        ihist.(c) <- ihist.(c) @ [OFire (nat_of_int (l - base c), k)];
-        let t = run_level (leaves c) ihist.(c) in
-        let d = drop_n itr.(c) t in itr.(c) <- List.length t;
-        List.iter (fun e -> match e with
-          | EO -> emit "o"
-          | EF (j, k) -> emit (Printf.sprintf "f%d.%d" (base c + int_of_nat j) (int_of_nat k))
-          | EW p when outer_passes -> emit (Printf.sprintf "W%d" (tr_pid c p))
-          | EW _ -> outer_fire c
-          | _ -> ()) d
-    | ODrop -> emit "d"; dropped := true; ohist := !ohist @ [ODrop]; otr := List.length (run_outer [oscs.(0); oscs.(1)] !ohist);
-               Array.iteri (fun c _ -> ihist.(c) <- ihist.(c) @ [ODrop]; itr.(c) <- List.length (run_level (leaves c) ihist.(c))) ihist
-    | OMut _ -> ()) ops;
-  if not !dropped then emit "d";
-  List.rev !out
-
+(* ---- nests: an outer combinator over two inner combinators over the leaves.  Their model is the composition of the single-level models with
+   themselves, defined in Gallina (coq/Model/Nest.v, nest_run) and extracted with the rest; its leaf-level events carry their observational
+   labels already ---- *)
+let show_nev = function EC (c, WSub w) -> Printf.sprintf "c%d:S%d" (int_of_nat c) (int_of_nat w) | e -> show_ev e
+let nkind_of = function "nest_jj" -> Some NJJ | "nest_jt" -> Some NJT | "nest_jr" -> Some NJR | "nest_rj" -> Some NRJ | "nest_mm" -> Some NMM
+  | "nest_cm" -> Some NCM | "nest_zm" -> Some NZM | "nest_gj" -> Some NGJ | "nest_gm" -> Some NGM | _ -> None
 let () =
   let selective = Sys.argv.(1) = "std" in
   try while true do
@@ -291,7 +108,9 @@ let () =
         (* the keys of members born through extend are not observable: their K tokens are printed as a bare `k` (the i-th EK belongs to the i-th insert) *)
         let nk = ref 0 in
         let toks = List.map (fun e -> match e with EK _ -> let i = !nk in incr nk; if Hashtbl.mem ext_born i then "k" else show_ev e | _ -> show_ev e) tr in
-        let toks = if List.mem comb ["nest_jj"; "nest_mm"; "nest_jt"; "nest_gj"; "nest_gm"; "nest_jr"; "nest_rj"; "nest_cm"; "nest_zm"] then nest_trace selective comb scripts ops else toks in
+        let toks = (match nkind_of comb with
+          | Some k -> List.map show_nev (nest_run selective k scripts ops)
+          | None -> toks) in
         print_endline (String.concat " " (id :: toks))
       | _ -> failwith "case"
     end
